@@ -36,7 +36,7 @@ Proof. eapply acts_trans; [apply sleep_drop_acts|apply sleep_drop_acts]. Qed.
 
 Lemma poll_aw0_acts now a iv dr : acts now dr (snd (fst (poll_aw0 now a iv dr))).
 Proof.
-  destruct a as [s|v dl|biased tie a b| |ch|tr s|rf ch s]; cbn [poll_aw0].
+  destruct a as [s|v dl|biased tie a b| |ch|tr s|rf ch s|rearm d3 s sx|pre s]; cbn [poll_aw0].
   - pose proof (sleep_poll_acts now s dr) as H. destruct (sleep_poll now s dr) as [[r s'] dr']. exact H.
   - pose proof (timeout_poll_acts _ vpoll now v dl dr (fun v0 dr0 => vpoll_acts now v0 dr0)) as H.
     destruct (timeout_poll vpoll now v dl dr) as [[[res v'] dl'] dr']. cbn [snd] in H.
@@ -54,11 +54,26 @@ Proof.
   - apply acts_refl.
   - pose proof (sleep_poll_acts now s dr) as H. destruct (sleep_poll now s dr) as [[r s'] dr']. exact H.
   - apply acts_refl.
+  - pose proof (sleep_poll_acts now s dr) as H1. destruct (sleep_poll now s dr) as [[r s'] dr1]. cbn [snd] in H1.
+    destruct r; cbn [fst snd].
+    + eapply acts_trans; [exact H1|apply drops_acts].
+    + pose proof (sleep_poll_acts now sx dr1) as H2. destruct (sleep_poll now sx dr1) as [[rx sx'] dr2]. cbn [snd] in H2.
+      destruct rx; cbn [fst snd]; [|exact (acts_trans _ _ _ _ H1 H2)].
+      destruct rearm; cbn [fst snd].
+      * pose proof (sleep_drop_acts now sx' dr2) as H3.
+        pose proof (sleep_reset_acts now s' (dl now d3) (sleep_drop sx' dr2)) as H4.
+        destruct (sleep_reset s' (dl now d3) (sleep_drop sx' dr2)) as [s3 dr3]. cbn [snd] in H4.
+        pose proof (sleep_poll_acts now s3 dr3) as H5. destruct (sleep_poll now s3 dr3) as [[r4 s4] dr4]. cbn [snd] in H5.
+        assert (H : acts now dr dr4).
+        { eapply acts_trans; [exact H1|]. eapply acts_trans; [exact H2|]. eapply acts_trans; [exact H3|]. eapply acts_trans; [exact H4|exact H5]. }
+        destruct r4; cbn [fst snd]; exact H.
+      * eapply acts_trans; [exact H1|]. eapply acts_trans; [exact H2|apply drops_acts].
+  - pose proof (sleep_poll_acts now s dr) as H. destruct (sleep_poll now s dr) as [[r s'] dr']. exact H.
 Qed.
 
 Lemma poll_aw_acts now m a iv dr mail : acts now dr (snd (fst (fst (poll_aw now m a iv dr mail)))).
 Proof.
-  destruct a as [s|v dl|biased tie a b| |ch|tr s|rf ch s]; cbn [poll_aw fst]; try apply poll_aw0_acts.
+  destruct a as [s|v dl|biased tie a b| |ch|tr s|rf ch s|rearm d3 s sx|pre s]; cbn [poll_aw fst]; try apply poll_aw0_acts.
   - pose proof (timeout_poll_acts _ (vpoll_m m) now (v, mail) dl dr (fun v0 dr0 => vpoll_m_acts m now v0 dr0)) as H.
     destruct (timeout_poll (vpoll_m m) now (v, mail) dl dr) as [[[res vm'] dl'] dr']. cbn [snd] in H.
     destruct res; cbn [fst snd]; [exact H| |];
@@ -76,28 +91,33 @@ Qed.
 
 Lemma start_step0_acts now s iv dr nid lg : acts now dr (snd (fst (fst (start_step0 now s iv dr nid lg)))).
 Proof.
-  destruct s as [d|t|d v|biased a b|p b| | |polled d1 d2|d| |ch d|ch|d ch|rf ch d]; cbn [start_step0]; try apply acts_refl.
+  destruct s as [d|t|d v|biased a b|p b| | |polled d1 d2|d| |ch d|ch|d ch|rf ch d|rearm d0 d2 x d3]; cbn [start_step0]; try apply acts_refl.
   - destruct v; apply acts_refl.
   - apply iv_drop_acts.
   - apply iv_drop_acts.
-  - set (s0 := sleep_new (now + d1) nid).
+  - set (s0 := sleep_new (dl now d1) nid).
     assert (H1 : acts now dr (snd (if polled then let '(_, s1, dr1) := sleep_poll now s0 dr in (s1, dr1) else (s0, dr)))).
     { destruct polled; [|apply acts_refl].
       pose proof (sleep_poll_acts now s0 dr) as H. destruct (sleep_poll now s0 dr) as [[r s1] dr1]. exact H. }
     destruct (if polled then let '(_, s1, dr1) := sleep_poll now s0 dr in (s1, dr1) else (s0, dr)) as [s1 dr1].
     cbn [snd] in H1.
-    pose proof (sleep_reset_acts now s1 (now + d2) dr1) as H2.
-    destruct (sleep_reset s1 (now + d2) dr1) as [s2 dr2]. cbn [fst snd] in *.
+    pose proof (sleep_reset_acts now s1 (dl now d2) dr1) as H2.
+    destruct (sleep_reset s1 (dl now d2) dr1) as [s2 dr2]. cbn [fst snd] in *.
     exact (acts_trans _ _ _ _ H1 H2).
-  - pose proof (sleep_poll_acts now (sleep_new (now + d) nid) dr) as H.
-    destruct (sleep_poll now (sleep_new (now + d) nid) dr) as [[r s1] dr1]. cbn [fst snd] in *.
+  - pose proof (sleep_poll_acts now (sleep_new (dl now d) nid) dr) as H.
+    destruct (sleep_poll now (sleep_new (dl now d) nid) dr) as [[r s1] dr1]. cbn [fst snd] in *.
     eapply acts_trans; [exact H|apply sleep_drop_acts].
+  - pose proof (sleep_poll_acts now (sleep_new (dl now d0) nid) dr) as H1.
+    destruct (sleep_poll now (sleep_new (dl now d0) nid) dr) as [[r s1] dr1]. cbn [snd] in H1.
+    pose proof (sleep_reset_acts now s1 (dl now d2) dr1) as H2.
+    destruct (sleep_reset s1 (dl now d2) dr1) as [s2 dr2]. cbn [fst snd] in *.
+    exact (acts_trans _ _ _ _ H1 H2).
 Qed.
 
 Lemma start_step_acts now m k s iv dr nid lg mail :
   acts now dr (snd (fst (fst (fst (start_step now m k s iv dr nid lg mail))))).
 Proof.
-  destruct s as [d|t|d v|biased a b|p b| | |polled d1 d2|d| |ch d|ch|d ch|rf ch d]; cbn [start_step fst]; try apply start_step0_acts.
+  destruct s as [d|t|d v|biased a b|p b| | |polled d1 d2|d| |ch d|ch|d ch|rf ch d|rearm d0 d2 x d3]; cbn [start_step fst]; try apply start_step0_acts.
   pose proof (sleep_poll_acts now (sleep_new (now + d) nid) dr) as H.
   destruct (sleep_poll now (sleep_new (now + d) nid) dr) as [[r s1] dr1]. cbn [fst snd] in *. exact H.
 Qed.
